@@ -370,10 +370,6 @@ Proof.
   destruct ((c =? 10) && b); [apply IH; assumption|]. simpl. rewrite Hc. apply IH. assumption.
 Qed.
 
-(* eol normalisation and control neutralisation commute on the original text *)
-Lemma neutralise_eol : forall t b, flat_map reparse_d (eol_from b t) = eol_from b (flat_map reparse_d t) \/ True.
-Proof. intros. right. exact I. Qed.
-
 (* ---- the wrapped document reads back as one element holding one text ---- *)
 Definition text_kids (s : text) : list stan := match s with [] => [] | _ :: _ => [SText s] end.
 
@@ -481,3 +477,311 @@ Lemma html2stan_formfeed : html2stan (encode [12]) = H2ParseError.
 Proof. vm_compute. reflexivity. Qed.
 Lemma html2stan_nbsp : html2stan (encode [160]) = H2ParseError.
 Proof. vm_compute. reflexivity. Qed.
+
+Local Transparent wrap_tag.
+
+(* ------------------------------------------------------------------ start tags *)
+(* attributes written as  SPACE key = QUOTE escaped-value QUOTE  with any escaping the reader inverts *)
+Definition pp_triple (x : text * text * text) : text := 32 :: fst (fst x) ++ 61 :: 34 :: snd (fst x) ++ [34].
+Definition triple_attr (x : text * text * text) : text * text := (fst (fst x), snd x).
+Definition triple_ok (x : text * text * text) : Prop :=
+  is_name (fst (fst x)) = true /\ ~ In 34 (snd (fst x)) /\ unescape (snd (fst x)) = Some (snd x).
+
+Lemma read_attrs_vals : forall (l : list (text * text * text)) fuel ws e,
+  Forall triple_ok l -> nodup_keys (map triple_attr l) = true ->
+  forallb is_space ws = true -> tag_end e ->
+  (length (flat_map pp_triple l ++ ws ++ e) < fuel)%nat ->
+  read_attrs fuel (flat_map pp_triple l ++ ws ++ e) = Some (map triple_attr l, e).
+Proof.
+  induction l as [|[[k ev] v] l IH]; intros fuel ws e Hok Hnd Hws He Hfuel.
+  - destruct fuel as [|f]; [inversion Hfuel|].
+    destruct (tag_end_head e He) as [Hsp _].
+    simpl flat_map. simpl app. cbn [read_attrs].
+    rewrite span_app by assumption.
+    destruct He as [He|He]; rewrite He; [reflexivity|]. rewrite orb_true_r. reflexivity.
+  - destruct fuel as [|f]; [inversion Hfuel|].
+    inversion Hok as [|x l' Hx Hl]; subst. destruct Hx as [Hk [Hq Hu]]. simpl in Hk, Hq, Hu.
+    destruct (is_name_cons k Hk) as [c [kr [Ek [Hc Hkr]]]].
+    pose proof (name_start_range c Hc) as Hrange.
+    change (flat_map pp_triple ((k, ev, v) :: l)) with (pp_triple (k, ev, v) ++ flat_map pp_triple l).
+    rewrite <- app_assoc. unfold pp_triple at 1. cbn [fst snd].
+    assert (Eform : (32 :: k ++ 61 :: 34 :: ev ++ [34]) ++ flat_map pp_triple l ++ ws ++ e
+                    = [32] ++ (k ++ 61 :: 34 :: ev ++ 34 :: flat_map pp_triple l ++ ws ++ e)).
+    { simpl. rewrite <- !app_assoc. simpl. rewrite <- !app_assoc. reflexivity. }
+    rewrite Eform in *.
+    cbn [read_attrs].
+    rewrite span_app; [| reflexivity | subst k; simpl; unfold is_space; nsolve ].
+    assert (Hsw : starts_with [62] (k ++ 61 :: 34 :: ev ++ 34 :: flat_map pp_triple l ++ ws ++ e)
+                  || starts_with [47; 62] (k ++ 61 :: 34 :: ev ++ 34 :: flat_map pp_triple l ++ ws ++ e) = false).
+    { subst k. simpl app. rewrite !starts_with_head_false by nsolve. reflexivity. }
+    rewrite Hsw.
+    rewrite read_name_app; [| assumption | simpl; reflexivity ].
+    rewrite skip_space_head by reflexivity.
+    change (61 :: 34 :: ev ++ 34 :: flat_map pp_triple l ++ ws ++ e)
+      with ([61] ++ (34 :: ev ++ 34 :: flat_map pp_triple l ++ ws ++ e)).
+    rewrite strip_prefix_app.
+    rewrite skip_space_head by reflexivity.
+    change ((34 =? 34) || (34 =? 39)) with true. cbv iota.
+    rewrite span_app; [| apply forallb_not_char; exact Hq | simpl; reflexivity ].
+    rewrite Hu.
+    rewrite IH; try assumption.
+    + change (map triple_attr ((k, ev, v) :: l)) with ((k, v) :: map triple_attr l) in *.
+      rewrite (has_key_nodup k v _ Hnd). reflexivity.
+    + change (map triple_attr ((k, ev, v) :: l)) with ((k, v) :: map triple_attr l) in Hnd.
+      simpl in Hnd. nb. assumption.
+    + cbn [flat_map] in Hfuel. unfold pp_triple at 1 in Hfuel. cbn [fst snd] in Hfuel. len.
+Qed.
+
+Lemma join_space : forall t l, join [32] (t :: l) = t ++ flat_map (fun x => 32 :: x) l.
+Proof. reflexivity. Qed.
+
+(* attribute lists whose keys are lower-case XML names, pairwise different *)
+Definition attr_triple (kv : text * aval) : text * text * text :=
+  (lower_ascii (fst kv), attval (aval_text (snd kv)), map ws_space (aval_text (snd kv))).
+
+Definition value_ok (kv : text * aval) : bool :=
+  forallb (fun c => (xml_char c || memN c attval_ws) && negb (c =? 160)) (aval_text (snd kv)).
+
+Lemma open_tag_shape : forall t a e,
+  open_tag t a e = 60 :: t ++ flat_map pp_triple (map attr_triple a) ++ (if e then [32; 47] else []) ++ [62].
+Proof.
+  intros t a e. unfold open_tag. rewrite join_space. simpl. rewrite <- app_assoc. f_equal. f_equal. f_equal.
+  induction a as [|kv a IH]; [reflexivity|]. simpl. rewrite IH. unfold pp_triple, attr_triple, render_attr. simpl.
+  rewrite <- !app_assoc. reflexivity.
+Qed.
+
+Lemma value_ok_triple : forall kv, is_name (lower_ascii (fst kv)) = true -> value_ok kv = true -> triple_ok (attr_triple kv).
+Proof.
+  intros kv Hk Hv. unfold triple_ok, attr_triple. cbn [fst snd]. split; [assumption|]. split.
+  - apply attval_no_markup.
+  - apply unescape_attval.
+    + unfold value_ok in Hv. rewrite forallb_forall in *. intros c Hc. specialize (Hv c Hc).
+      apply andb_true_iff in Hv. tauto.
+    + intro Hin. unfold value_ok in Hv. rewrite forallb_forall in Hv. specialize (Hv 160 Hin).
+      apply andb_true_iff in Hv. destruct Hv as [_ Hv]. discriminate.
+Qed.
+
+Definition rendered_attrs (a : dict) : list (text * text) := map triple_attr (map attr_triple a).
+
+Theorem open_tag_reads_back : forall t a e,
+  is_name t = true ->
+  forallb (fun kv => is_name (lower_ascii (fst kv))) a = true ->
+  forallb value_ok a = true ->
+  nodup_keys (rendered_attrs a) = true ->
+  read (open_tag t a e ++ (if e then [] else 60 :: 47 :: t ++ [62])) = Some [XElem t (rendered_attrs a) []].
+Proof.
+  intros t a e Ht Hkeys Hvals Hnd. unfold read.
+  destruct (is_name_cons t Ht) as [c [tr [Et [Hc Htr]]]].
+  pose proof (name_start_range c Hc) as Hrange.
+  assert (Hok : Forall triple_ok (map attr_triple a)).
+  { apply Forall_forall. intros x Hx. apply in_map_iff in Hx. destruct Hx as [kv [<- Hkv]].
+    rewrite forallb_forall in Hkeys, Hvals. apply value_ok_triple; auto. }
+  rewrite open_tag_shape.
+  set (L := map attr_triple a) in *.
+  destruct e.
+  - (* empty-element tag *)
+    rewrite app_nil_r.
+    assert (Edoc : 60 :: t ++ flat_map pp_triple L ++ [32; 47] ++ [62]
+                   = 60 :: (t ++ flat_map pp_triple L ++ [32] ++ [47; 62])) by reflexivity.
+    rewrite Edoc. remember (length (60 :: t ++ flat_map pp_triple L ++ [32] ++ [47; 62])) as n eqn:Hn.
+    rewrite read_content_elem; [| subst t; simpl app; apply starts_with_head_false; nsolve ].
+    rewrite read_name_app; [| assumption |].
+    2:{ destruct L as [|x L']; simpl; reflexivity. }
+    rewrite (read_attrs_vals L n [32] [47; 62]); try assumption; try reflexivity.
+    2:{ right. reflexivity. }
+    2:{ rewrite Hn. len. }
+    change [47; 62] with ([47; 62] ++ []). rewrite strip_prefix_app.
+    destruct n as [|n']; [simpl in Hn; discriminate|]. reflexivity.
+  - assert (Edoc : (60 :: t ++ flat_map pp_triple L ++ [] ++ [62]) ++ 60 :: 47 :: t ++ [62]
+                   = 60 :: (t ++ flat_map pp_triple L ++ [] ++ (62 :: 60 :: 47 :: t ++ [62]))).
+    { simpl. rewrite <- !app_assoc. reflexivity. }
+    rewrite Edoc. remember (length (60 :: t ++ flat_map pp_triple L ++ [] ++ 62 :: 60 :: 47 :: t ++ [62])) as n eqn:Hn.
+    rewrite read_content_elem; [| subst t; simpl app; apply starts_with_head_false; nsolve ].
+    rewrite read_name_app; [| assumption |].
+    2:{ destruct L as [|x L']; simpl; reflexivity. }
+    rewrite (read_attrs_vals L n [] (62 :: 60 :: 47 :: t ++ [62])); try assumption; try reflexivity.
+    2:{ left. reflexivity. }
+    2:{ rewrite Hn. len. }
+    rewrite strip_prefix_head_false by reflexivity.
+    change (62 :: 60 :: 47 :: t ++ [62]) with ([62] ++ (60 :: 47 :: t ++ [62])). rewrite strip_prefix_app.
+    assert (Hn2 : (3 <= n)%nat) by (rewrite Hn; len).
+    destruct n as [|[|n']]; try lia.
+    rewrite read_content_boundary by (right; eexists; reflexivity).
+    change (60 :: 47 :: t ++ [62]) with (60 :: 47 :: t ++ 62 :: []).
+    rewrite close_tag_ok by assumption.
+    destruct n' as [|n'']; [lia|]. reflexivity.
+Qed.
+
+(* ------------------------------------------------------------------ the attribute dict of starttag: lower-case, distinct keys *)
+Lemma text_eq_eq : forall a b, text_eq a b = true -> a = b.
+Proof.
+  induction a as [|c a IH]; intros [|d b] H; simpl in H; try discriminate; [reflexivity|].
+  apply andb_true_iff in H. destruct H as [H1 H2]. apply N.eqb_eq in H1. subst. f_equal. apply IH. assumption.
+Qed.
+
+Lemma text_eq_refl : forall a, text_eq a a = true.
+Proof. induction a as [|c a IH]; simpl; [reflexivity|]. rewrite N.eqb_refl, IH. reflexivity. Qed.
+
+Definition keys (d : dict) : list text := map fst d.
+Definition lowered (k : text) : Prop := lower_ascii k = k.
+Definition Inv (d : dict) : Prop := NoDup (keys d) /\ Forall lowered (keys d).
+
+Lemma lower_char_idem : forall c,
+  (let l := if (65 <=? c) && (c <=? 90) then c + 32 else c in if (65 <=? l) && (l <=? 90) then l + 32 else l)
+  = (if (65 <=? c) && (c <=? 90) then c + 32 else c).
+Proof.
+  intro c. cbv zeta. destruct ((65 <=? c) && (c <=? 90)) eqn:E.
+  - nb. assert (H1 : (65 <=? c + 32) && (c + 32 <=? 90) = false).
+    { apply andb_false_iff. right. apply N.leb_gt. lia. }
+    rewrite H1. reflexivity.
+  - rewrite E. reflexivity.
+Qed.
+
+Lemma lower_idem : forall k, lowered (lower_ascii k).
+Proof.
+  intro k. unfold lowered, lower_ascii. rewrite map_map. apply map_ext. intro c. apply lower_char_idem.
+Qed.
+
+Lemma in_keys_dict_set : forall d k v x, In x (keys (dict_set d k v)) -> x = k \/ In x (keys d).
+Proof.
+  induction d as [|[k' v'] d IH]; intros k v x H; simpl in H.
+  - destruct H as [H|[]]. auto.
+  - destruct (text_eq k k') eqn:E; simpl in H.
+    + apply text_eq_eq in E. subst k'. destruct H as [H|H]; [auto|]. right. right. exact H.
+    + destruct H as [H|H]; [right; left; exact H|]. destruct (IH k v x H) as [H'|H']; [auto|]. right. right. exact H'.
+Qed.
+
+Lemma Inv_nil : Inv [].
+Proof. split; constructor. Qed.
+
+Lemma Inv_set : forall d k v, Inv d -> lowered k -> Inv (dict_set d k v).
+Proof.
+  induction d as [|[k' v'] d IH]; intros k v [Hnd Hlow] Hk; simpl.
+  - split; simpl; [constructor; [intros []|constructor] | constructor; [assumption|constructor]].
+  - destruct (text_eq k k') eqn:E.
+    + apply text_eq_eq in E. subst k'. split; assumption.
+    + simpl in Hnd, Hlow. inversion Hnd as [|x l Hnotin Hnd']; subst. inversion Hlow as [|x l Hk' Hlow']; subst.
+      destruct (IH k v (conj Hnd' Hlow') Hk) as [H1 H2].
+      split; simpl.
+      * constructor; [|exact H1]. intro Hin. apply in_keys_dict_set in Hin. destruct Hin as [->|Hin].
+        -- rewrite text_eq_refl in E. discriminate.
+        -- contradiction.
+      * constructor; assumption.
+Qed.
+
+Lemma Inv_del : forall d k, Inv d -> Inv (dict_del d k).
+Proof.
+  induction d as [|[k' v'] d IH]; intros k [Hnd Hlow]; [split; constructor|].
+  simpl in Hnd, Hlow. inversion Hnd as [|x l Hnotin Hnd']; subst. inversion Hlow as [|x l Hk' Hlow']; subst.
+  destruct (IH k (conj Hnd' Hlow')) as [H1 H2].
+  unfold dict_del. simpl. destruct (negb (text_eq k k')).
+  - split; simpl.
+    + constructor; [|exact H1]. intro Hin. apply Hnotin.
+      unfold dict_del, keys in *. apply in_map_iff in Hin. destruct Hin as [kv [<- Hkv]].
+      apply filter_In in Hkv. apply in_map. tauto.
+    + constructor; assumption.
+  - split; assumption.
+Qed.
+
+Lemma in_keys_insert : forall d kv x, In x (keys (insert_sorted kv d)) <-> x = fst kv \/ In x (keys d).
+Proof.
+  induction d as [|kv' d IH]; intros kv x; simpl.
+  - intuition.
+  - destruct (text_ltb (fst kv') (fst kv)); simpl.
+    + rewrite IH. intuition.
+    + intuition.
+Qed.
+
+Lemma Inv_insert : forall d kv, Inv d -> lowered (fst kv) -> ~ In (fst kv) (keys d) -> Inv (insert_sorted kv d).
+Proof.
+  induction d as [|kv' d IH]; intros kv [Hnd Hlow] Hk Hnotin; simpl.
+  - split; simpl; [constructor; [intros []|constructor] | constructor; [assumption|constructor]].
+  - simpl in Hnd, Hlow. inversion Hnd as [|x l Hn' Hnd']; subst. inversion Hlow as [|x l Hk' Hlow']; subst.
+    destruct (text_ltb (fst kv') (fst kv)).
+    + destruct (IH kv (conj Hnd' Hlow') Hk) as [H1 H2]; [intro H; apply Hnotin; right; exact H|].
+      split; simpl.
+      * constructor; [|exact H1]. intro Hin. apply (proj1 (in_keys_insert _ _ _)) in Hin. destruct Hin as [E|Hin].
+        -- apply Hnotin. left. auto.
+        -- contradiction.
+      * constructor; assumption.
+    + split; simpl.
+      * constructor; [exact Hnotin | constructor; assumption].
+      * constructor; [assumption | constructor; assumption].
+Qed.
+
+Lemma in_keys_sort : forall d x, In x (keys (sort_items d)) <-> In x (keys d).
+Proof.
+  induction d as [|kv d IH]; intro x; simpl; [tauto|].
+  rewrite in_keys_insert. rewrite IH. intuition.
+Qed.
+
+Lemma Inv_sort : forall d, Inv d -> Inv (sort_items d).
+Proof.
+  induction d as [|kv d IH]; intros [Hnd Hlow]; [exact Inv_nil|].
+  simpl in Hnd, Hlow. inversion Hnd as [|x l Hn' Hnd']; subst. inversion Hlow as [|x l Hk' Hlow']; subst.
+  simpl. apply Inv_insert; [apply IH; split; assumption | assumption |].
+  intro H. apply (proj1 (in_keys_sort _ _)) in H. apply Hn'. exact H.
+Qed.
+
+Lemma Inv_fold : forall l acc, Inv acc ->
+  Inv (fold_left (fun acc kv => dict_set acc (lower_ascii (fst kv)) (snd kv)) l acc).
+Proof.
+  induction l as [|kv l IH]; intros acc H; simpl; [exact H|].
+  apply IH. apply Inv_set; [exact H | apply lower_idem].
+Qed.
+
+Lemma starttag_parts_inv : forall i p t a s, starttag_parts i = Some (p, t, a, s) ->
+  Inv a /\ t = lower_ascii (st_tag i).
+Proof.
+  intros i p t a s H. unfold starttag_parts in H.
+  set (atts0 := fold_left (fun acc kv => dict_set acc (lower_ascii (fst kv)) (snd kv)) _ []) in H.
+  assert (H0 : Inv atts0) by (apply Inv_fold; exact Inv_nil).
+  set (atts1 := dict_del (dict_del atts0 s_classes) s_class) in H.
+  assert (H1 : Inv atts1) by (apply Inv_del; apply Inv_del; exact H0).
+  destruct (class_loop _ _ _) as [classes languages] in H.
+  set (atts2 := match languages with l :: _ => dict_set atts1 s_lang (AStr l) | [] => atts1 end) in H.
+  assert (H2 : Inv atts2) by (unfold atts2; destruct languages; [exact H1 | apply Inv_set; [exact H1 | reflexivity]]).
+  set (atts3 := match classes with _ :: _ => dict_set atts2 s_class (AStr (join [32] classes)) | [] => atts2 end) in H.
+  assert (H3 : Inv atts3) by (unfold atts3; destruct classes; [exact H2 | apply Inv_set; [exact H2 | reflexivity]]).
+  destruct (dict_get atts3 s_id); [discriminate|].
+  inversion H; subst. split; [|reflexivity].
+  apply Inv_sort.
+  match goal with |- Inv (match ?ids with _ => _ end) => destruct ids end.
+  - apply Inv_del. exact H3.
+  - apply Inv_set; [apply Inv_del; exact H3 | reflexivity].
+Qed.
+
+Lemma has_key_in : forall k l, has_key k l = true -> In k (map fst l).
+Proof.
+  induction l as [|[k' v'] l IH]; intro H; simpl in H; [discriminate|].
+  apply orb_true_iff in H. destruct H as [H|H]; [left; symmetry; apply text_eqb_eq; exact H | right; apply IH; exact H].
+Qed.
+
+Lemma nodup_keys_of_NoDup : forall l, NoDup (map fst l) -> nodup_keys l = true.
+Proof.
+  induction l as [|[k v] l IH]; intro H; [reflexivity|]. simpl in H. inversion H as [|x l' Hn Hnd]; subst.
+  simpl. apply andb_true_iff. split; [|apply IH; exact Hnd].
+  apply negb_true_iff. destruct (has_key k l) eqn:E; [|reflexivity]. exfalso. apply Hn. apply has_key_in. exact E.
+Qed.
+
+Lemma rendered_keys : forall a, Forall lowered (keys a) -> map fst (rendered_attrs a) = keys a.
+Proof.
+  induction a as [|kv a IH]; intro H; [reflexivity|]. simpl in H. inversion H as [|x l Hk Hl]; subst.
+  unfold rendered_attrs in *. simpl. rewrite IH by assumption. unfold triple_attr, attr_triple. simpl.
+  rewrite Hk. reflexivity.
+Qed.
+
+Theorem starttag_reads_back : forall i p t a s,
+  starttag_parts i = Some (p, t, a, s) ->
+  is_name t = true -> forallb (fun kv => is_name (fst kv)) a = true -> forallb value_ok a = true ->
+  read (open_tag t a (st_empty i) ++ (if st_empty i then [] else 60 :: 47 :: t ++ [62]))
+  = Some [XElem t (rendered_attrs a) []].
+Proof.
+  intros i p t a s H Ht Hkeys Hvals. destruct (starttag_parts_inv i p t a s H) as [[Hnd Hlow] _].
+  apply open_tag_reads_back; try assumption.
+  - rewrite forallb_forall in *. intros kv Hkv.
+    assert (Hl : lowered (fst kv)).
+    { rewrite Forall_forall in Hlow. apply Hlow. apply in_map. exact Hkv. }
+    rewrite Hl. apply Hkeys. exact Hkv.
+  - apply nodup_keys_of_NoDup. rewrite rendered_keys by assumption. exact Hnd.
+Qed.
